@@ -286,6 +286,35 @@ theorem scan_assemble_text_output_short (d : Delims) (hT : d.tagS = ['{', '%']) 
     scan d (assemble d ps) = matchesOf d 0 ps :=
   scan_assemble_partial d ps hwf (allMarkupFound_text_output_short d hT hS hE hC ps hk hwf)
 
+/-- **String level, every piece kind — full strength (default delimiters).** With the default tag and output
+delimiters, shorthand comments off or `{# #}`, well-formedness of the piece list alone implies that the scanner run on
+the assembled *string* finds exactly the matches `matchesOf` states — text, output statements, every tag (inline
+comment, liquid, comment / endcomment, …), raw blocks, doc blocks and shorthand comments, with every marker
+combination and padding. The residual hypothesis of `scan_assemble_partial` is discharged
+(`output_found`, `tag_found`, `raw_found`, `doc_found`, `short_found`); what remains trusted is that the scanner
+equals the regex on strings (stream `scan`). -/
+theorem scan_assemble_default (d : Delims) (hT : d.tagS = ['{', '%']) (hTE : d.tagE = ['%', '}'])
+    (hS : d.stmtS = ['{', '{']) (hE : plainDelim d.stmtE = true)
+    (hC : d.cmtS = [] ∨ (d.cmtS = ['{', '#'] ∧ plainDelim d.cmtE = true))
+    (ps : List Piece) (hwf : srcWf d ps = true) :
+    scan d (assemble d ps) = matchesOf d 0 ps :=
+  scan_assemble_partial d ps hwf (allMarkupFound_of_srcWf d hT hTE hS hE hC ps hwf)
+
+/-- **End to end from the source string, full strength**: for every well-formed item list under the default
+delimiters (template comments off or on), scanning, tokenizing and parsing the assembled string yields the
+specified nodes. -/
+theorem string_level_refines_spec (d : Delims) (hd : d = Delims.default ∨ d = Delims.withComments)
+    (items : List Item) (hok : allOk items = true) (hwf : srcWf d (flatten items) = true) :
+    nodesOfString d (assemble d (flatten items)) = .ok (specNodes d false items) := by
+  have hscan : scan d (assemble d (flatten items)) = matchesOf d 0 (flatten items) := by
+    rcases hd with rfl | rfl
+    · exact scan_assemble_default _ rfl rfl rfl (by decide) (Or.inl rfl) _ hwf
+    · exact scan_assemble_default _ rfl rfl rfl (by decide) (Or.inr ⟨rfl, by decide⟩) _ hwf
+  have h := lex_refines_spec d items false hok
+  simp only [nodesFrom] at h
+  simp only [nodesOfString, hscan]
+  exact h
+
 /-- **End to end from the string** (same residual hypothesis): scanning, tokenizing and parsing the source string
 of any well-formed item list gives the specified nodes. -/
 theorem string_level_refines_spec_partial (d : Delims) (items : List Item) (hok : allOk items = true)
